@@ -174,6 +174,25 @@ impl<'a, 'tcx> BodyCx<'a, 'tcx> {
         if let Ok(Ok(val)) = evaluated {
             match val {
                 mir::ConstValue::Scalar(s) => {
+                    // `&[u8; N]` literals (b"...") are pointers into a constant allocation
+                    if let (ty::Ref(_, inner, _), rustc_middle::mir::interpret::Scalar::Ptr(ptr, _)) = (ty.kind(), s) {
+                        if let ty::Array(elem, len) = inner.kind() {
+                            if *elem == tcx.types.u8 {
+                                if let Some(n) = len.try_to_target_usize(tcx) {
+                                    let (prov, off) = ptr.prov_and_relative_offset();
+                                    if let Some(rustc_middle::mir::interpret::GlobalAlloc::Memory(alloc)) = tcx.try_get_global_alloc(prov.alloc_id()) {
+                                        let a = alloc.inner();
+                                        let lo = off.bytes() as usize;
+                                        let hi = lo + n as usize;
+                                        if hi <= a.len() {
+                                            let bytes = a.inspect_with_uninit_and_ptr_outside_interpreter(lo..hi);
+                                            v.push(("bytes", J::Arr(bytes.iter().map(|b| J::Int(*b as i128)).collect())));
+                                        }
+                                    }
+                                }
+                            }
+                        }
+                    }
                     if let Ok(si) = s.try_to_scalar_int() {
                         let bits = si.to_bits(si.size());
                         let signed = matches!(ty.kind(), ty::Int(_));
